@@ -30,6 +30,9 @@ TRUSTED = [
     "harness (Python) and compiled Lean driver: parsing, comparison",
 ]
 
+FLOOR = 4 * 5e-324          # a few subnormal steps: no double can do better below
+ACCURACY_FROM = 1e-150      # below, Point.norm's own squares are subnormal and 1e-5*r^2 nears the subnormal spacing
+
 FAMILIES = ["ext_tangent", "int_tangent", "equal", "concentric", "nested", "far", "generic"]
 
 
@@ -57,7 +60,15 @@ def call(x1, y1, r1, x2, y2, r2):
 
 def gen_case(rng):
     fam = rng.choice(FAMILIES + ["ext_tangent", "int_tangent", "equal"])
-    scale = 10.0 ** rng.uniform(-6, 6)
+    u = rng.random()
+    if u < 0.5:
+        scale = 10.0 ** rng.uniform(-6, 6)
+    elif u < 0.8:
+        scale = 10.0 ** rng.uniform(-160, 150)
+    elif u < 0.93:
+        scale = 10.0 ** rng.uniform(-160, -140)   # squares and products of the lengths underflow here
+    else:
+        scale = 10.0 ** rng.uniform(140, 150)
     style = rng.random()
     if style < 0.3:  # short decimals
         r1 = round(rng.uniform(0.1, 9.9), 1) * scale
@@ -70,6 +81,10 @@ def gen_case(rng):
         r2 = rng.uniform(0.05, 1.0) * scale
     if fam == "equal" or (fam in ("ext_tangent", "concentric") and rng.random() < 0.2):
         r2 = r1
+    elif rng.random() < 0.12:  # a disc that is tiny relative to the other one (down to its last bits)
+        r1 = r2 * 10.0 ** rng.uniform(-17, -1)
+        if rng.random() < 0.5:
+            r1, r2 = r2, r1
     k = rng.randint(-8, 8)
     if fam == "ext_tangent":
         d = ulp_nudge(r1 + r2, k)
@@ -131,15 +146,18 @@ def spec_on_impl(ctx: Ctx, inp, a, b) -> None:
     if not (a == a and abs(a) != math.inf):
         ctx.spec_fail("total", inp, {"not_finite": repr(a)}, size)
         return
-    if abs(a - b) > 1e-6 * R2:
+    if abs(a - b) > max(1e-6 * R2, FLOOR):
         ctx.spec_fail("symmetric", inp, {"f(1,2)": a, "f(2,1)": b, "allowed": 1e-6 * R2}, size)
     cap = mp.pi * mpf(min(r1, r2)) ** 2
     if a < 0:
         ctx.spec_fail("bounds.nonneg", inp, {"area": a}, size)
-    if mpf(a) > cap * (1 + mpf(10) ** -12):
+    if mpf(a) > cap * (1 + mpf(10) ** -12) + mpf(FLOOR):
         ctx.spec_fail("bounds.smaller_disc", inp, {"area": a, "smaller_disc": float(cap)}, size)
+    if max(r1, r2) < ACCURACY_FROM:
+        ctx.count("accuracy-not-judged:radius<1e-150")
+        return
     ex = exact_area(x1, y1, r1, x2, y2, r2)
-    if abs(mpf(a) - ex) > mpf(1e-5) * mpf(R2):
+    if abs(mpf(a) - ex) > mpf(1e-5) * mpf(r1 if r1 > r2 else r2) ** 2:
         ctx.spec_fail("accurate", inp, {"area": a, "exact": float(ex), "allowed": 1e-5 * R2}, size)
 
 
@@ -153,7 +171,7 @@ def compare(ctx: Ctx, inp, impl, model: str, op: str) -> None:
     mv = hex2f(model)
     if f2hex(impl) == model or impl == mv:
         return
-    tol = (1e-6 if near_tangent(x1, y1, r1, x2, y2, r2) else 1e-9) * R2
+    tol = max((1e-6 if near_tangent(x1, y1, r1, x2, y2, r2) else 1e-9) * R2, FLOOR)
     if abs(impl - mv) <= tol:
         ctx.drift += 1
     else:
@@ -189,18 +207,103 @@ def process(ctx: Ctx, cases) -> None:
             compare(ctx, inp, b, replies[2 * n + 1], "disc-swapped")
 
 
+class _Rel:
+    """stand-in for `c1 - c2` with a prescribed norm: drives the body of the function with an exact distance
+    (Point.norm cannot produce distances below ~1.5e-162, so the zero-divisor guard is unreachable through it)."""
+
+    def __init__(self, d):
+        self.d = d
+
+    def __sub__(self, other):
+        return self
+
+    def norm(self):
+        return self.d
+
+
+def call_body(r1, r2, d):
+    try:
+        v = circle_circle_intersection_area(_Rel(d), r1, _Rel(d), r2)
+    except Exception as e:  # noqa: BLE001
+        return "err:" + type(e).__name__
+    return float(v)
+
+
+def exact_body(r1, r2, d):
+    return exact_area(d, 0.0, r1, 0.0, 0.0, r2)
+
+
+def body_stream(ctx: Ctx, n: int) -> None:
+    """(r1, r2, d) triples given directly: tiny d against huge radii, tiny radius ratios, exact tangencies."""
+    rng = ctx.rng
+    cases = []
+    for _ in range(n):
+        scale = 10.0 ** rng.choice([rng.uniform(-6, 6), rng.uniform(-160, 150), rng.uniform(100, 150), rng.uniform(-160, -120)])
+        r1 = scale * rng.uniform(0.1, 1.0)
+        kind = rng.choice(["tiny-d", "tiny-d", "ratio", "tangent", "lens"])
+        if kind == "tiny-d":
+            r2 = r1
+            d = max(5e-324, r1 * 10.0 ** rng.uniform(-330, -280))
+        elif kind == "ratio":
+            r2 = r1 * 10.0 ** rng.uniform(-17, -14)
+            d = ulp_nudge(r1, rng.randint(-3, 3))
+        elif kind == "tangent":
+            r2 = scale * rng.uniform(0.1, 1.0)
+            d = ulp_nudge(rng.choice([r1 + r2, abs(r1 - r2)]), rng.randint(-8, 8))
+        else:
+            r2 = scale * rng.uniform(0.1, 1.0)
+            d = abs(r1 - r2) + (r1 + r2 - abs(r1 - r2)) * rng.random()
+        if d <= 0 or r2 <= 0:
+            continue
+        cases.append((kind, r1, r2, d))
+    replies = ctx.model(["F discd %s %s %s" % (f2hex(r1), f2hex(r2), f2hex(d)) for (_, r1, r2, d) in cases])
+    for k, (kind, r1, r2, d) in enumerate(cases):
+        inp = {"body": True, "family": "body:" + kind, "r1": f2hex(r1), "r2": f2hex(r2), "d": f2hex(d)}
+        a = call_body(r1, r2, d)
+        b = call_body(r2, r1, d)
+        ctx.case("body", (inp["r1"], inp["r2"], inp["d"]), True, None)
+        ctx.count("body:" + kind)
+        R2 = max(r1, r2) ** 2
+        if isinstance(a, str) or isinstance(b, str):
+            ctx.spec_fail("total", inp, {"raises": a if isinstance(a, str) else b}, 0)
+        else:
+            cap = mp.pi * mpf(min(r1, r2)) ** 2
+            if a < 0 or mpf(a) > cap * (1 + mpf(10) ** -12) + mpf(FLOOR):
+                ctx.spec_fail("bounds", inp, {"area": a, "smaller_disc": float(cap)}, 0)
+            if abs(a - b) > max(1e-6 * R2, FLOOR):
+                ctx.spec_fail("symmetric", inp, {"f(1,2)": a, "f(2,1)": b}, 0)
+            if max(r1, r2) >= ACCURACY_FROM:
+                ex = exact_body(r1, r2, d)
+                if abs(mpf(a) - ex) > mpf(1e-5) * mpf(max(r1, r2)) ** 2:
+                    ctx.spec_fail("accurate", inp, {"area": a, "exact": float(ex)}, 0)
+        if replies is not None:
+            m = replies[k]
+            if isinstance(a, str) or m.startswith("err:") or m == "bad-op":
+                if a != m:
+                    ctx.disagree("discd", inp, a if isinstance(a, str) else f2hex(a), m, 0)
+            elif f2hex(a) != m and a != hex2f(m):
+                if abs(a - hex2f(m)) <= max(1e-6 * R2, FLOOR):
+                    ctx.drift += 1
+                else:
+                    ctx.disagree("discd", inp, f2hex(a), m, 0)
+
+
 CORPUS = [  # the witnesses of findings/C17_acos_domain.py and exact tangencies
     (2.1, 3.7, float.fromhex("0x1.7333333333334p+2")), (4.0, 1.6, float.fromhex("0x1.6666666666664p+2")),
     (3.3, 3.8, float.fromhex("0x1.0000000000003p-1")), (1.0, 1.0, 2.0), (1.0, 1.0, 0.0), (2.0, 1.0, 1.0),
     (2.0, 1.0, 3.0), (0.1, 0.2, 0.30000000000000004), (0.1, 0.2, 0.3), (1e-6, 1e-6, 2e-6), (1e6, 3e5, 7e5),
+    # findings/C17_underflow.py
+    (9.01165710384412e-171, 1.3105308960428737e-155, 1.3105308960428743e-155), (3e-160, 2e-160, 4e-160),
+    (1.5e-170, 1.5e-170, 2e-170), (3e150, 2e150, 4e150), (1e-300, 1e-300, 1e-300),
 ]
 
 
 def run(ctx: Ctx) -> None:
     ctx.rule = ("pairs of discs from 7 families: centre distance within ±8 ulp of r1+r2 (externally tangent) and of |r1-r2| "
                 "(internally tangent), equal discs (incl. distance 0 and 2r±ulp), concentric, nested, far apart, generic "
-                "lenses; radii short decimals / dyadic / uniform at scales 1e-6…1e6; centres axis-aligned or rotated, at the "
-                "origin or offset by up to 1000 radii; every pair is evaluated in both argument orders. Far-apart pairs are "
+                "lenses; radii short decimals / dyadic / uniform at scales 1e-6…1e6 (half of the cases), 1e-160…1e150, "
+                "1e-160…1e-140 and 1e140…1e150, one disc possibly 1e-17…1e-1 of the other; centres axis-aligned or rotated, at the "
+                "origin or offset by up to 1000 radii; every pair is evaluated in both argument orders. A second stream drives the body with exact (r1, r2, d) triples through a stand-in for c1 - c2 (distances down to 5e-324 against radii up to 1e150, radius ratios 1e-17…1e-14, exact tangencies), which reaches the zero-divisor guard. Far-apart pairs are "
                 "trivial; distinct = distinct (centres, radii)")
     cases = []
     if not getattr(ctx, "seed_inputs", None) and ctx.budget <= 1.0:
@@ -210,8 +313,30 @@ def run(ctx: Ctx) -> None:
     for _ in range(ctx.n(40000, 800000)):
         cases.append(gen_case(ctx.rng))
     process(ctx, cases)
-    ctx.assumptions.append("radii positive and finite, no overflow/underflow of r*d (scales 1e-6…1e6); NaN/inf inputs are outside the property")
+    body_stream(ctx, ctx.n(6000, 100000))
+    ctx.assumptions.append("radii positive and finite, lengths <= 1e150 (the disc area must be a double; Python's ** raises "
+                           "OverflowError beyond ~1.3e154); NaN/inf inputs are outside the property")
+    ctx.assumptions.append("the 1e-5*r^2 accuracy clause is judged for max(r1, r2) >= 1e-150 only: below, Point.norm squares "
+                           "subnormal numbers and the allowed error approaches the spacing of subnormal doubles; totality, "
+                           "symmetry and bounds are judged at every scale")
 
 
 def replay(ctx: Ctx, body: dict) -> None:
-    process(ctx, [body["input"]])
+    inp = body["input"]
+    if inp.get("body"):
+        r1, r2, d = hex2f(inp["r1"]), hex2f(inp["r2"]), hex2f(inp["d"])
+        a = call_body(r1, r2, d)
+        rep = ctx.model(["F discd %s %s %s" % (inp["r1"], inp["r2"], inp["d"])])
+        if isinstance(a, str):
+            ctx.spec_fail("total", inp, {"raises": a}, 0)
+        else:
+            ex = exact_body(r1, r2, d)
+            cap = mp.pi * mpf(min(r1, r2)) ** 2
+            if a < 0 or mpf(a) > cap * (1 + mpf(10) ** -12) + mpf(FLOOR):
+                ctx.spec_fail("bounds", inp, {"area": a}, 0)
+            if max(r1, r2) >= ACCURACY_FROM and abs(mpf(a) - ex) > mpf(1e-5) * mpf(max(r1, r2)) ** 2:
+                ctx.spec_fail("accurate", inp, {"area": a, "exact": float(ex)}, 0)
+        if rep and (rep[0] != (a if isinstance(a, str) else f2hex(a))):
+            ctx.disagree("discd", inp, a if isinstance(a, str) else f2hex(a), rep[0], 0)
+        return
+    process(ctx, [inp])
